@@ -189,15 +189,11 @@ def ndepth_obligations():
 
 
 def parse_obligations():
-    """lemmas of spec/parse.smt2: counters are non-negative (induction), one unfolding of ttwf for list-pair patterns"""
+    """lemmas of spec/parse.smt2: the counters are non-negative (induction)"""
     def nonneg(name, call, P):
         return '(>= %s 0)' % call
     obls = induction_obligations('L-TCNT-NONNEG', ['control.smt2', 'parse.smt2'], '(define-funs-rec ((tcnt ', nonneg)
     obls += induction_obligations('L-PECNT-NONNEG', ['control.smt2', 'parse.smt2'], '(define-fun-rec pecnt ', nonneg)
-    texts = [open(os.path.join(os.path.dirname(SPEC), f)).read() for f in ('control.smt2', 'parse.smt2')]
-    i = texts[1].index('; L-WF-PAIRS')
-    obls.append(('spec.L-WF-PAIRS', '(set-logic ALL)\n' + texts[0] + '\n' + texts[1][:i] + '\n(declare-const t TT)\n'
-                 '(assert (and ((_ is TTPairs) t) (ttwf t) (not (ttphas t))))\n(assert (not ((_ is ttnil) (ttprest t))))\n(check-sat)'))
     return obls
 
 
